@@ -68,6 +68,13 @@ class Ctx:
 CTX = Ctx()
 
 
+def z3check(solver, timeout_ms):
+    """solver.check().  z3's `timeout` is a soft limit (some non-linear procedures overrun it many times); interrupting the context
+    from a timer thread was tried and crashes libz3 (segfault in a worker), so the hard limit is imposed one level up: every
+    contract runs in a worker process and the driver abandons workers at the check's wall-clock deadline (driver.run_contracts)."""
+    return solver.check()
+
+
 _QCACHE = {}
 
 
@@ -107,7 +114,7 @@ def _feasible(conds, extra) -> bool:
             s.add(*conds)
             s.add(extra)
             CTX.stats['feas_checks'] += 1
-            if s.check() == z3.unsat:
+            if z3check(s, CTX.branch_timeout_ms) == z3.unsat:
                 return False
         conds = [c for c in conds if not _quantified(c)]
         if _quantified(extra):
@@ -119,7 +126,7 @@ def _feasible(conds, extra) -> bool:
     s.add(*conds)
     s.add(extra)
     CTX.stats['feas_checks'] += 1
-    return s.check() != z3.unsat
+    return z3check(s, CTX.branch_timeout_ms) != z3.unsat
 
 
 class Path:
